@@ -1451,6 +1451,8 @@ func runC06(p *an.Prog, r *an.Run, tier string) {
 	checkHashCovers(p, r)
 	checkNonceKeptOnRefusal(p, r)
 	checkNonceStores(p, r)
+	// what a refused request carried does not live on in the next request's parameters
+	checkFreshParams(p, r)
 	for _, w := range a.wrappers {
 		name := an.FuncName(w)
 		r.Analysed(name)
